@@ -1020,7 +1020,7 @@ func ruleC05R5(r *Run) {
 			r.Check(p.fnName(fn)+"#accept-in-guarded-loop", cs.Instr.Pos(), guarded[blk], "accept is reached only from inside a deadline-guarded loop", "an accept call in "+p.fnName(fn)+" is not inside a loop that re-checks the deadline")
 		}
 	}
-	r.Floor("accept call sites", na, 8)
+	r.Floor("accept call sites", na, 5)
 	if dc := r.MustFn("doCheck"); dc != nil {
 		for _, cs := range p.callsTo(dc, "shrink") {
 			r.Check("doCheck#shrink.deadline", cs.Instr.Pos(), p.expr(cs.Arg(1)) == "shrinkDeadline($deadline)", "the shrink deadline derives from the test deadline and -rapid.shrinktime", "shrink deadline is "+p.expr(cs.Arg(1)))
@@ -1124,7 +1124,7 @@ func ruleC05R6(r *Run) {
 			r.Check(p.fnName(fn)+"#accept.candidate", cs.Instr.Pos(), ok, "the candidate is a fresh copy (without(...) / append(nil, ...))", "the candidate passed to accept in "+p.fnName(fn)+" is "+why+": it may alias the current best, so writing the candidate changes the verified state")
 		}
 	}
-	r.Floor("candidates passed to accept", n, 8)
+	r.Floor("candidates passed to accept", n, 5)
 	if w := r.MustFn("without"); w != nil {
 		ok := false
 		for _, cs := range p.callsTo(w, "builtin:append") {
@@ -1134,6 +1134,12 @@ func ruleC05R6(r *Run) {
 		}
 		for _, cs := range p.callsTo(w, "slices.Clone", "bytes.Clone") {
 			if p.expr(cs.Arg(0)) == "$data" {
+				ok = true
+			}
+		}
+		// make([]uint64, len(data)) filled by copy(buf, data)
+		for _, cs := range p.callsTo(w, "builtin:copy") {
+			if ms, isMS := p.resolve(cs.Common.Args[0]).(*ssa.MakeSlice); isMS && p.expr(cs.Common.Args[1]) == "$data" && p.expr(ms.Len) == "builtin:len($data)" {
 				ok = true
 			}
 		}
